@@ -300,8 +300,11 @@ theorem readStringBytesC_eq (data buf : Bytes) : readStringBytesC data buf = som
       | control q => intro hb; simp only [scanPos] at hb; simp only []; rw [if_pos hb.2]
       | escape q => intro hb; simp only [scanPos] at hb; simp only []; rw [if_pos hb]
 
-/-- every index and slice expression of `token.go`, `simple_readers.go` and `decode.go` on the current tree (regenerated by
-    `gofacts`), in source order. Each `data[…]` below is an explicit test of `Model.ApiChecked` (or sits inside the
+/-- every index and slice expression of `token.go`, `simple_readers.go`, `decode.go`, `rjson.go` and `machine_helpers.go` on
+    the current tree (regenerated by `gofacts`), in source order. `getu4`, `unescapeUnicodeChar`, `skipFloatDec`,
+    `skipFloatExp`, `countWhitespace` are the helpers of `Model/Helpers.lean` (checked accesses, part of the machine
+    runs of `C10.gen_total`); `growBytesSliceCapacity` slices a slice it has just made long enough; `digits`, `expBytes`,
+    `signBytes` are 256-entry tables; `out[…]` are stores into a freshly made slice of the same length / a map. Each `data[…]` below is an explicit test of `Model.ApiChecked` (or sits inside the
     `p < len(data)` loop condition that the model's loops carry); `tokenTypes[…]` and `whitespace[…]` are 256-entry
     tables indexed by a byte, `tokenTypeStrings[t]` a 256-entry table indexed by a `TokenType` (`uint8`); `ReadString`
     repeats `ReadStringBytes` (`(*buf)[:0]` truncates the caller's scratch slice); `ReadFloat64` slices at the end of
@@ -314,7 +317,18 @@ def expectedIndexSites : List (String × String) :=
    ("ReadString", "data[p] | (*buf)[:0] | data[p] | data[p:] | data[p] | data[start:p] | data[start:p] | data[p:]"),
    ("ReadStringBytes", "data[p] | data[p] | data[p:] | data[p] | data[start:p] | data[start:p] | data[p:]"),
    ("ReadUint64", "data[p] | data[p:] | data[p] | data[p] | data[p] | data[p] | data[p] | data[p] | data[p] | data[p]"),
-   ("TokenType.String", "tokenTypeStrings[t]")]
+   ("StdLibCompatibleMap", "out[k] | out[k] | out[k] | out[k]"),
+   ("StdLibCompatibleSlice", "out[i] | out[i] | out[i] | out[i]"),
+   ("StdLibCompatibleString", "rjsonString[i:]"),
+   ("StdLibCompatibleStringBytes", "rjsonString[i:]"),
+   ("TokenType.String", "tokenTypeStrings[t]"),
+   ("Valid", "data[p:]"),
+   ("countWhitespace", "whitespace[data[i]] | data[i]"),
+   ("getu4", "data[0] | data[1] | data[2:6]"),
+   ("growBytesSliceCapacity", "slice[:cap(slice)] | slice[:origLen]"),
+   ("skipFloatDec", "digits[data[p]] | data[p] | digits[data[p]] | data[p] | expBytes[data[p]] | data[p]"),
+   ("skipFloatExp", "digits[data[p]] | data[p] | signBytes[data[p]] | data[p]"),
+   ("unescapeUnicodeChar", "growBytesSliceCapacity(data, origLen+4)[:origLen+4] | s[6:] | data[origLen:] | data[:origLen+rl] | data[origLen:] | data[:origLen+w]")]
 
 theorem indexSites_expected : Gen.Facts.indexSites = expectedIndexSites := by decide +kernel
 
